@@ -3,16 +3,16 @@ from common import COMMON_TRUST
 PROP = {
     "generated": ["FormConsts"],
     "lean_modules": ["SwimVerif.Model.FormSchema", "SwimVerif.Model.FormWF", "SwimVerif.Model.FormIO",
-                     "SwimVerif.Model.FormMon", "SwimVerif.Proofs.FormSchema", "SwimVerif.Proofs.FormTypes",
+                     "SwimVerif.Model.FormMon", "SwimVerif.Proofs.FormSchema", "SwimVerif.Proofs.FormTypes", "SwimVerif.Proofs.FormReset",
                      "SwimVerif.Generated.FormConsts"],
     "engines": [
         # model of as_value / try_from_value against the real derive output, on written and on mutated values
         {"name": "form-model", "crate": "core", "bin": "sv-c16", "machine": "c16",
-         "features": [], "cases": {"quick": 48000, "thorough": 1600000}, "min_shard": 2000,
+         "features": [], "cases": {"quick": 24000, "thorough": 1600000}, "min_shard": 2000,
          "gen_args": ["model"], "nontrivial_min_ops": 4},
         # the three laws on the implementation alone: model round trip, two Recon reading paths, MessagePack
         {"name": "form-paths", "crate": "core", "bin": "sv-c16", "machine": "c16", "modes": ["monitor"],
-         "features": [], "cases": {"quick": 48000, "thorough": 800000}, "min_shard": 2000,
+         "features": [], "cases": {"quick": 24000, "thorough": 800000}, "min_shard": 2000,
          "gen_args": ["paths"], "nontrivial_min_ops": 4},
     ],
     "level_text": "Proof: for every schema satisfying the explicit decidable condition tyWF (all combinations of "
